@@ -165,6 +165,13 @@ def run_C07(ctx, E):
     stage_record_trace(ctx, E, "opt", "C07_Trace", "C07_Trace.cfg", heap="8g")
 
 
+def run_C10(ctx, E):
+    ctx.exhaustive = True
+    for e in (("e1", "e2", "e4") if ctx.tier == "quick" else ("e1", "e2", "e3", "e4")):
+        stage_mc_replay(ctx, E, e, "C10_MC", "C10_MC_%s_%s.cfg" % (ctx.tier, e), heap="24g")
+    stage_record_trace(ctx, E, "cut", "C10_Trace", "C10_Trace.cfg", heap="16g")
+
+
 def run_C18(ctx, E):
     ctx.exhaustive = True
     stage_mc_replay(ctx, E, "combine", "C18_MC", "C18_MC_%s.cfg" % ctx.tier)
@@ -175,6 +182,21 @@ _seqhash_note = ("trusted: TLC, community modules; the digest is uninterpreted i
                  "in the replayer by a from-scratch BLAKE3 transcription pinned by the official test vectors; "
                  "double-stranded inputs containing Z or (under type DNA) U are outside the strand clause and not replayed")
 PROPS = {
+    "C10": dict(run=run_C10,
+                technique="TLC exhaustive evaluation of a cyclic, origin-free definition of directional Type IIS "
+                          "digestion (Digest.tla) with a rotation-invariance theorem; every in-domain string replayed on "
+                          "clone.CutWithEnzyme as linear and circular part; TLC trace validation of recorded digests",
+                level_text="every A/C/G/T string to length 7-8 (quick) / 9-10 (thorough) is a TLC state for three or four "
+                           "small custom enzymes (2- and 3-letter sites, skips 0-1, overhangs 1-2, one odd-length site "
+                           "with palindromic flanks), so every rotation of every small plasmid is its own case; "
+                           "fragments (forward overhang, interior, reverse overhang) must equal the geometric definition "
+                           "as multisets, upper and lower case; recorded digests with BsaI, BbsI, BtgZI and random "
+                           "custom enzymes on layouts of 20-3000 bases with 0-6 sites (every rotation of plasmids up to "
+                           "300 bases) are recomputed by C10_Trace",
+                level_note="trusted: TLC, community modules; the domain restriction (no overlapping occurrences, paired "
+                           "cuts at least 2*skip+2*overhang apart) is decided by the specification (InDomain)",
+                rule="S->I: one case per in-domain string (linear + circular); non-trivial = at least one fragment; "
+                     "I->S: one event per CutWithEnzyme call"),
     "C07": dict(run=run_C07,
                 technique="TLC evaluation of the eligibility definition (CodonTables!Eligible) over boundary weightings "
                           "with theorem invariants; per (code, weighting) case replayed on codon.Optimize for every "
